@@ -81,9 +81,11 @@ def cases(draw, client):
     pauses = draw(st.lists(st.tuples(st.integers(1, 30), st.integers(1, 12)), min_size=0, max_size=6))
     fail = draw(st.one_of(st.none(), st.none(), st.integers(1, 25)))
     stagger = draw(st.lists(st.sampled_from([0, 0, 0, 1, 3]), min_size=n, max_size=n))
-    if draw(st.integers(0, 5)) == 0:
-        # the gateway stops sending (EOF on the read side) while a send() waits in drain(): the client reconnects mid-send
-        fail = ("eof", draw(st.integers(1, 6)), draw(st.sampled_from([30, 60, 120])))
+    if draw(st.integers(0, 4)) == 0:
+        # the gateway stops sending (EOF on the read side) while a send() waits in drain(): the client reconnects mid-send;
+        # a second wave of sends starts on the new link while the first wave is still parked
+        wave2 = [("ok", draw(st.sampled_from(FAST + SINGLE)), 10 + j) for j in range(draw(st.integers(0, 2)))]
+        fail = ("eof", draw(st.integers(1, 6)), draw(st.sampled_from([30, 60, 120])), wave2)
     return msgs, pauses, fail, stagger
 
 
@@ -121,6 +123,17 @@ def run_case(client, msgs, pauses, fail, stagger):
             for _ in range(lag):
                 await asyncio.sleep(0)
             tasks.append(asyncio.ensure_future(c.send(m)))
+        if isinstance(fail, (tuple, list)) and len(fail) > 3 and fail[3]:
+            for _ in range(400):
+                if len(s.gw.links) > 1 and c.state.name == "CONNECTED":
+                    break
+                await asyncio.sleep(0)
+            if len(s.gw.links) > 1:
+                s.gw.write_actions[s.gw.total_writes + 1] = ("pause", 25)
+                s.gw.write_actions[s.gw.total_writes + 2] = ("pause", 10)
+                for w in fail[3]:
+                    tasks.append(asyncio.ensure_future(c.send(make_message(*w)[0])))
+                    await asyncio.sleep(0)
         await asyncio.gather(*tasks, return_exceptions=True)
         s.state_after_sends = c.state.name
         s.attempts_after_sends = len(s.gw.attempts)
@@ -145,6 +158,24 @@ def evaluate(client, msgs, pauses, fail, stagger, outcome, s, built):
         if late:
             out.append((f"{tag}|wrote-to-abandoned-link", f"{len(late)} write(s) went to link {a.index} after link {b.index} had been opened (loop steps {late[:4]}, "
                         f"new link at step {b.up_step})", case))
+    # on every link the packets of one message stay together (messages are told apart by their source address)
+    for l in s.gw.links:
+        srcs = []
+        data = l.bytes_written()
+        if client == "ebyte":
+            srcs = [data[i + 4] for i in range(0, len(data) - 12, 13)]
+        elif client == "waveshare":
+            srcs = [data[i + 5] for i in range(0, len(data) - 19, 20) if data[i + 2] == 0x01]
+        elif client == "yd":
+            srcs = [int(line.split()[0], 16) & 0xFF for line in data.decode("ascii", "ignore").split("\r\n") if line.strip()]
+        seen, prev_src = set(), None
+        for x in srcs:
+            if x != prev_src and x in seen:
+                out.append((f"{tag}|interleaved-on-link", f"link {l.index}: packets of message from source {x} are split by another message's packets "
+                            f"(source sequence {srcs[:24]})", case))
+                break
+            seen.add(x)
+            prev_src = x
     if isinstance(fail, (tuple, list)):
         if len(s.gw.links) > 1 and "DISCONNECTED" not in s.status_names:
             out.append((f"{tag}|eof-not-reported", "the gateway closed its side during a send but DISCONNECTED was never reported", case))
@@ -245,5 +276,7 @@ def replay(ctx: Ctx, case):
     msgs = [tuple(m) for m in case["messages"]]
     pauses = [tuple(p) for p in case["pauses"]]
     fail = tuple(case["fail"]) if isinstance(case["fail"], list) else case["fail"]
+    if isinstance(fail, tuple) and len(fail) > 3:
+        fail = fail[:3] + ([tuple(w) for w in fail[3]],)
     outcome, s, built = run_case(case["client"], msgs, pauses, fail, case["stagger"])
     return evaluate(case["client"], msgs, pauses, fail, case["stagger"], outcome, s, built)
